@@ -716,7 +716,7 @@ func (o *operation) readRequestMessage(rw *responseWriter, reader io.Reader, msg
 		msgLen, compressed, err = o.processRequestEnvelope(envBuf)
 		if err != nil {
 			if rw != nil {
-				rw.reportError(err)
+				rw.reportErrorFromReader(err)
 			}
 			return err
 		}
@@ -728,7 +728,7 @@ func (o *operation) readRequestMessage(rw *responseWriter, reader io.Reader, msg
 		limit, grow, makeError, limitErr := o.determineReadLimit()
 		if limitErr != nil {
 			if rw != nil {
-				rw.reportError(limitErr)
+				rw.reportErrorFromReader(limitErr)
 			}
 			return limitErr
 		}
@@ -926,7 +926,7 @@ func (r *envelopingReader) prepareNext() error {
 		}
 		if err != nil {
 			err = malformedRequestError(err)
-			r.rw.reportError(err)
+			r.rw.reportErrorFromReader(err)
 			return err
 		}
 		r.current = &exactLengthReader{r: io.LimitReader(r.r, int64(env.length)), rw: r.rw, remaining: int64(env.length)}
@@ -1009,7 +1009,7 @@ func (r *transformingReader) Read(data []byte) (n int, err error) {
 		}
 		if err := r.prepareMessage(); err != nil {
 			r.err = err
-			r.rw.reportError(err)
+			r.rw.reportErrorFromReader(err)
 			return 0, err
 		}
 	}
@@ -1080,6 +1080,8 @@ type responseWriter struct {
 	detachedHeader http.Header
 	// the RPC status keys of the real header map as they were when the end was written
 	endStatus http.Header
+	// serializes the handler's writes with errors reported by the request-reading side
+	mu sync.Mutex
 }
 
 func (w *responseWriter) Header() http.Header {
@@ -1096,8 +1098,10 @@ func (w *responseWriter) Header() http.Header {
 }
 
 func (w *responseWriter) Write(data []byte) (n int, err error) {
+	w.mu.Lock()
+	defer w.mu.Unlock()
 	if !w.headersWritten {
-		w.WriteHeader(http.StatusOK)
+		w.writeHeader(http.StatusOK)
 	}
 	if w.err != nil {
 		return 0, w.err
@@ -1107,6 +1111,12 @@ func (w *responseWriter) Write(data []byte) (n int, err error) {
 }
 
 func (w *responseWriter) WriteHeader(statusCode int) {
+	w.mu.Lock()
+	defer w.mu.Unlock()
+	w.writeHeader(statusCode)
+}
+
+func (w *responseWriter) writeHeader(statusCode int) {
 	if w.headersWritten {
 		return
 	}
@@ -1254,6 +1264,15 @@ func (w *responseWriter) flushMessage() {
 	w.flusher.Flush()
 }
 
+// reportErrorFromReader is reportError for the request-reading side: a handler may read the
+// request body on a different goroutine than the one that writes the response, so errors
+// found while reading must not interleave with a Write or WriteHeader in progress.
+func (w *responseWriter) reportErrorFromReader(err error) {
+	w.mu.Lock()
+	defer w.mu.Unlock()
+	w.reportError(err)
+}
+
 func (w *responseWriter) reportError(err error) {
 	var end responseEnd
 	if errors.As(err, &end.err) {
@@ -1328,9 +1347,11 @@ func (w *responseWriter) flushHeaders() {
 }
 
 func (w *responseWriter) close() {
+	w.mu.Lock()
+	defer w.mu.Unlock()
 	if !w.headersWritten {
 		// treat as empty successful response
-		w.WriteHeader(http.StatusOK)
+		w.writeHeader(http.StatusOK)
 	}
 	if w.w != nil {
 		_, _ = w.w.Write(nil) // trigger any final writes
@@ -1930,7 +1951,7 @@ func (e *exactLengthReader) Read(data []byte) (n int, err error) {
 	e.remaining -= int64(n)
 	if errors.Is(err, io.EOF) && e.remaining > 0 {
 		err = io.ErrUnexpectedEOF
-		e.rw.reportError(malformedRequestError(fmt.Errorf("request message is missing its final %d bytes: %w", e.remaining, err)))
+		e.rw.reportErrorFromReader(malformedRequestError(fmt.Errorf("request message is missing its final %d bytes: %w", e.remaining, err)))
 	}
 	return n, err
 }
@@ -1958,7 +1979,7 @@ func (h *hardLimitReader) Read(data []byte) (n int, err error) {
 	if h.read > h.limit && (err == nil || errors.Is(err, io.EOF)) {
 		err := h.error()
 		if h.rw != nil {
-			h.rw.reportError(err)
+			h.rw.reportErrorFromReader(err)
 		}
 		return n, err
 	}
